@@ -38,12 +38,28 @@ Proof. exact rm_cancel_on_first_return. Qed.
 Print Assumptions C12_cancel_on_first_return.
 
 (* ERROR JOIN.  What Run returns is, as a multiset, exactly the results of the runners that are
-   neither nil nor context.Canceled ([filt] drops those two). *)
+   neither nil nor context.Canceled ([filt] drops those two; [p_res p] is what runner p returned):
+   its scripted result, or - for a runner that returns ctx.Err() - what the cancelled context
+   reports.  context.DeadlineExceeded is NOT dropped. *)
 Theorem C12_error_join : forall v bs es s errs,
   run_r v (new_rm bs) es = Some s -> r_pc s = RReturned errs ->
-  Permutation errs (flat_map (fun p => olist (filt (beh_result (p_beh p)))) (r_procs s)).
+  Permutation errs (flat_map (fun p => olist (filt (p_res p))) (r_procs s)) /\
+  (forall p, In p (r_procs s) ->
+     match p_beh p with
+     | CtxErr => r_cancelled s = true /\ p_res p = Some (r_cerr s)
+     | Free r | OnCancel r => p_res p = r
+     | CloseRunner => p_res p = None
+     end).
 Proof. exact rm_error_join. Qed.
 Print Assumptions C12_error_join.
+
+(* What the runners' context reports is fixed by its FIRST cancellation (the caller's context
+   ending with Canceled or DeadlineExceeded, or the manager's own cancel() = Canceled) and never
+   changes afterwards. *)
+Theorem C12_ctx_err_stable : forall v s e s',
+  step_r v s e = Some s' -> r_cancelled s = true -> r_cancelled s' = true /\ r_cerr s' = r_cerr s.
+Proof. exact rm_ctx_err_stable. Qed.
+Print Assumptions C12_ctx_err_stable.
 
 (* RUNS ONCE.  Once a manager has been started every further Run call returns
    ErrManagerAlreadyStarted and changes nothing but the count of refused calls; a manager whose
@@ -52,8 +68,8 @@ Theorem C12_runs_once : forall v bs es s,
   run_r v (new_rm bs) es = Some s ->
   (r_running s = true ->
      step_r v s RRunCas =
-     Some (mkr true (r_runners s) (r_pc s) (r_procs s) (r_cancelled s) (r_parent s) (r_closech s)
-               (r_adds s) (S (r_rejected s)))) /\
+     Some (mkr true (r_runners s) (r_pc s) (r_procs s) (r_cancelled s) (r_cerr s) (r_parent s)
+               (r_closech s) (r_adds s) (S (r_rejected s)))) /\
   (r_pc s <> RIdle -> r_running s = true) /\
   (spawned s -> step_r v s RSpawn = None).
 Proof. exact rm_runs_once. Qed.
@@ -199,6 +215,39 @@ Theorem C12_close_before_run : forall v grace bs cls es s,
                    c_pc s'' = CIdle).
 Proof. exact cm_close_before_run. Qed.
 Print Assumptions C12_close_before_run.
+
+(* MANAGERS ASSEMBLED THROUGH RunnerCloserManager.Add.  After the start (Run or Close has been
+   called) Add is refused and changes nothing else ... *)
+Theorem C12_closer_add_after_start_refused : forall v grace bs cls es s b,
+  run_c v (new_cm grace bs cls) es = Some s -> c_running s = true ->
+  step_c v s (CAddCheck b) = Some (w_cadds s (cadds s ++ [CARefused])).
+Proof. exact cm_add_after_start_refused. Qed.
+Print Assumptions C12_closer_add_after_start_refused.
+
+(* ... before it, Add goes through: the runner is appended to the inner manager's slice and the
+   call returns nil (so, by C12_rejects_late_additions through C12_inner_is_runner_manager, Run
+   starts it and waits for it like a constructor runner). *)
+Theorem C12_closer_add_before_start_accepted : forall v grace bs cls es s b,
+  run_c v (new_cm grace bs cls) es = Some s -> c_running s = false ->
+  exists s1 s2, step_c v s (CAddCheck b) = Some s1 /\
+                step_c v s1 (CAddAppend (length (cadds s))) = Some s2 /\
+                r_runners (inner s2) = r_runners (inner s) ++ [b] /\
+                nth_error (r_adds (inner s2)) (length (r_adds (inner s))) = Some (AAccepted b).
+Proof. exact cm_add_before_start_accepted. Qed.
+Print Assumptions C12_closer_add_before_start_accepted.
+
+(* CLOSE REACHES THE RUNNERS (fixed code), however the manager was assembled - constructor, Add,
+   or both: whenever runner goroutines exist one of them is the close-runner, and while it runs a
+   closed closeCh (= Close was called) enables its return, whose collection cancels the context
+   of all the others (C12_cancel_on_first_return). *)
+Theorem C12_close_reaches_runners : forall grace bs cls es s,
+  run_c Fixed (new_cm grace bs cls) es = Some s ->
+  r_procs (inner s) <> [] ->
+  exists i p, nth_error (r_procs (inner s)) i = Some p /\ p_beh p = CloseRunner /\
+    (p_st p = Running -> r_closech (inner s) = true ->
+       exists s', step_c Fixed s (CInner (RRunnerReturn i)) = Some s').
+Proof. exact cm_close_reaches_runners. Qed.
+Print Assumptions C12_close_reaches_runners.
 
 (* The boolean oracle evaluated on the implementation's stamped trace decides the trace
    specification of Spec.v; multiset equality of error lists is decided by [msetb]. *)
